@@ -7,7 +7,7 @@ from __future__ import annotations
 import random
 
 KINDS_TP = ["apply", "apply", "map", "starmap", "doublestarmap"]
-CB = ["none", "none", "sync", "async", "sraise", "araise", "sfut", "sobj"]
+CB = ["none", "none", "sync", "async", "sraise", "araise", "sfut", "sobj", "swrap", "amark"]
 ONC = ["prop", "prop", "prop", "swallow", "exc", "again"]
 POINTS = ["begin", "fin", "canc", "ccb", "ecb", "call", "pull"]
 
@@ -31,6 +31,12 @@ def rand_template(rng, calm, r):
     t["bad"] = sorted({rng.randrange(0, max(1, t["num"])) for _ in range(rng.choice([0, 0, 0, 1, 2]))}) if not calm else []
     if rng.random() < 0.04:
         t["notcoro"] = True
+    # (drawn from a generator of their own, so that the schedules of earlier seeds stay what they were)
+    r2 = __import__("random").Random(rng.random())
+    if t["gname"] is not None and r2.random() < 0.3:
+        t["partial"] = True
+    if t["kind"] == "apply" and not calm and r2.random() < 0.05:
+        t["mismatch"] = True
     if t["kind"] != "apply" and rng.random() < 0.04:
         t["nc"] = rng.choice([0, -1])
     return t
